@@ -1,0 +1,39 @@
+//go:build verif
+
+// Contracts for the etcd KV client and its mock (C07), checked by /verif/govc (comment-only file).
+
+package etcd
+
+//@ # success is reported only after the conditional transaction succeeded or after the function declined;
+//@ # an error is reported only if no transaction of this call succeeded
+//@ func Client.CAS
+//@   property C07
+//@   ghost var wrote bool = false
+//@   ghost var declined bool = false
+//@   at after@f: declined := $r0 == nil && $r2 == nil
+//@   at after@clientv3.Txn.Commit: wrote := $r1 == nil && $r0 != nil && $r0.Succeeded
+//@   ensures  reported_success: result == nil ==> wrote || declined
+//@   ensures  reported_failure: result != nil ==> !wrote
+//@   loop 0 invariant !wrote
+//@
+//@ # the mock's put: version and revision advance by one, the value is replaced, other keys untouched
+//@ func mockKV.doPut
+//@   property C07
+//@   requires !isnil(m.values)
+//@   ensures  r1 == nil && in(key, m.values) && m.values[key].Value == valBytes
+//@   ensures  in(key, old(m).values) ==> m.values[key].Version == old(m).values[key].Version + 1 && m.values[key].ModRevision == old(m).values[key].ModRevision + 1
+//@   ensures  !in(key, old(m).values) ==> m.values[key].Version == 1
+//@   ensures  forall k string :: k != key ==> (in(k, m.values) <==> in(k, old(m).values)) && (in(k, m.values) ==> same(m.values[k], old(m).values[k]))
+//@
+//@ # a transaction runs its 'then' operations exactly when every comparison holds
+//@ func mockKV.evalCmps
+//@   property C07
+//@   ensures result <==> (forall i int :: 0 <= i && i < len(cmps) ==> mockKV.evalCmp(m, cmps[i]))
+//@   loop 0 invariant forall i int :: 0 <= i && i < $i ==> mockKV.evalCmp(m, cmps[i])
+//@   pure
+//@ assume func mockKV.evalCmp
+//@   pure
+//@
+//@ func mockKV.sendEvent
+//@   property C07
+//@   modifies nothing
